@@ -150,10 +150,15 @@ GROUPS = {
         "files": ["stream_leaf.rs"], "requires": ["fn jtoken_to_runtime_object(", "enum ArrayElement"], "model_map": True, "panic_property": "C14",
         "functions": ["json_read_stream::jtoken_to_runtime_object (leaf arms)", "json_read::jtoken_to_runtime_object (leaf arms)",
                       "ControlCommand::new_from_name", "NativeFunctionCall::new_from_name", "Value::new::<&str>"],
-        "bounds": ("differential: same leaf token through both loaders; every i32, every finite f32, both bools, every ASCII string "
-                   "token of length 1, 2 and 3; objects/arrays (tokenizer-driven in the streaming loader) are outside"),
+        "bounds": ("differential: same leaf token through both loaders; every i32, every finite f32, both bools, every text token "
+                   "\"^x\" and \"^xy\" with x, y ASCII; every other 1- and 2-byte ASCII string token (same KIND of object: which control "
+                   "command, which native function, glue, void, rejection); longer tokens and objects/arrays (tokenizer-driven in the streaming loader) are outside"),
         "stubs": ["alloc::fmt::format"],
         "roles": {"leaf_int": "integer token, all i32", "leaf_float": "float token, all finite f32", "leaf_bool": "bool token",
+                  "leaf_caret_text_1": "text token \"^x\", x any ASCII byte, through both loaders",
+                  "leaf_caret_text_2": "text token \"^xy\", x, y any ASCII bytes, through both loaders",
+                  "leaf_kind_1": "any 1-byte ASCII non-text string token: same kind of object from both loaders",
+                  "leaf_kind_2": "any 2-byte ASCII non-text string token: same kind of object (which control command / native function / glue / rejection)",
                   "leaf_str1": "1-byte ASCII string token", "leaf_str2": "2-byte ASCII string token", "leaf_str3": "3-byte ASCII string token"},
     },
     "cli_escape": {
@@ -357,7 +362,7 @@ PROPS = {
         "assumptions": ["serde_json::Value::to_string followed by from_str is the identity on numbers and bools (library contract)"],
     },
     "C14": {
-        "groups": {"tokenizer": sel_prefix("number_"), "stream_leaf": sel_prefix("leaf_int", "leaf_float", "leaf_bool")},
+        "groups": {"tokenizer": sel_prefix("number_"), "stream_leaf": sel_prefix("leaf_int", "leaf_float", "leaf_bool", "leaf_caret_text", "leaf_kind")},
         "outside": ("object/array structure and key order in the streaming loader, whitespace layout, number text parsing, whole "
                     "documents, surrogate pairs, strings longer than the stated bounds"),
         "assumptions": ["RFC 8259 escape semantics is what serde_json implements (library contract)"],
